@@ -84,3 +84,45 @@ func VerifC42ErrClass(err error) (string, int) {
 	}
 	return "", -1
 }
+
+// VerifC42Established returns a Conn over conn whose record layer is already keyed for (vers, suite) from the
+// given master secret and randoms, exactly as establishKeys + changeCipherSpec would leave it after a handshake
+// (handshakeComplete, haveVers).  It exists because no TLS client available to the harness can negotiate
+// SSL 3.0 (bfe_tls.Client and Go's crypto/tls refuse it), while bfe_tls.Server accepts it: the record layer
+// under test (readRecord, decrypt, ssl30MAC, removePaddingSSL30) is the real one, only the key exchange is skipped.
+func VerifC42Established(conn net.Conn, isClient bool, vers, suiteID uint16, master, clientRandom, serverRandom []byte) *Conn {
+	suite := mutualCipherSuite([]uint16{suiteID}, suiteID)
+	if suite == nil {
+		return nil
+	}
+	c := &Conn{conn: conn, isClient: isClient, config: &Config{}}
+	c.vers = vers
+	c.haveVers = true
+	c.cipherSuite = suiteID
+	clientMAC, serverMAC, clientKey, serverKey, clientIV, serverIV :=
+		keysFromMasterSecret(vers, master, clientRandom, serverRandom, suite.macLen, suite.keyLen, suite.ivLen)
+	var cr, cw, sr, sw interface{} // client read/write, server read/write cipher states
+	var crm, cwm, srm, swm macFunction
+	if suite.aead == nil {
+		cw = suite.cipher(clientKey, clientIV, false)
+		sr = suite.cipher(clientKey, clientIV, true)
+		sw = suite.cipher(serverKey, serverIV, false)
+		cr = suite.cipher(serverKey, serverIV, true)
+		cwm, srm = suite.mac(vers, clientMAC), suite.mac(vers, clientMAC)
+		swm, crm = suite.mac(vers, serverMAC), suite.mac(vers, serverMAC)
+	} else {
+		cw, sr = suite.aead(clientKey, clientIV), suite.aead(clientKey, clientIV)
+		sw, cr = suite.aead(serverKey, serverIV), suite.aead(serverKey, serverIV)
+	}
+	if isClient {
+		c.in.prepareCipherSpec(vers, cr, crm)
+		c.out.prepareCipherSpec(vers, cw, cwm)
+	} else {
+		c.in.prepareCipherSpec(vers, sr, srm)
+		c.out.prepareCipherSpec(vers, sw, swm)
+	}
+	c.in.changeCipherSpec()
+	c.out.changeCipherSpec()
+	c.handshakeComplete = true
+	return c
+}
